@@ -118,6 +118,10 @@ func (s *Service) handleSubmitSyncCommitteeContributionsError(ctx context.Contex
 			return err
 		}
 		for i := range len(resp.Failures) {
+			if resp.Failures[i] == nil {
+				// A failure without details is not one we know to be allowable.
+				continue
+			}
 			switch {
 			case strings.HasPrefix(resp.Failures[i].Message, "Verification: AggregatorAlreadyKnown"):
 				s.log.Trace().Str("beacon_node_address", address).Int("index", resp.Failures[i].Index).Msg("Contribution and proof already received for that slot; ignoring")
